@@ -2,7 +2,7 @@
 """C12 -- ISO-DEP exchanges each APDU exactly once or reports a tag error (structural clauses)."""
 import ast
 
-from ..model import norm, head, walk_no_nested, AnalysisError, FuncInfo, enclosing_stmt, ancestors, live
+from ..model import norm, head, walk_no_nested, AnalysisError, FuncInfo, enclosing_stmt, ancestors, live, last_live
 from ..cfg import cfg_of
 from ..resolve import Resolver, Ctx
 from ..escape import Escape, fmt_chain, items_sorted
@@ -170,7 +170,7 @@ def rule_error_mapping(report, prog, res):
         for h in t.handlers:
             if h.type is not None and norm(h.type) in ('nfc.clf.TransmissionError', 'nfc.clf.TimeoutError'):
                 asg = [norm(s.value) for s in ast.walk(h) if isinstance(s, ast.Assign) and norm(s.targets[0]) == 'data']
-                gives_up = not asg and isinstance(live(h.body)[-1], ast.Raise)      # a handler that only maps the error retransmits nothing
+                gives_up = not asg and isinstance(last_live(h.body), ast.Raise)      # a handler that only maps the error retransmits nothing
                 okk = gives_up or asg in (['bytearray([178 | self.pni])'], ['bytearray([162 | self.pni])'])
                 report.check(okk, 'C12-R3', key(f.qname, 'after %s the retry sends an R-block, not the I-block' % norm(h.type), h.type),
                              f.loc(h), 'error recovery retransmits %s (an I-block sent twice can be executed twice)' % asg)
